@@ -6,5 +6,6 @@ CONSTANT MutShareMembers = FALSE
 CONSTANT MutNoRescope = FALSE
 CONSTANT MutStaleProcs = FALSE
 CONSTANT MutRegisterInParent = FALSE
+CONSTANT MutShareNest = FALSE
 CONSTANT MaxDepth = 99
 CHECK_DEADLOCK FALSE
